@@ -41,9 +41,7 @@ def run(c):
                 key = "%s:%s:%s:%s" % (fam, case["expect"], (ev.get("bad") or ["?"])[0].split(":")[0], shape)
                 seen[key] = seen.get(key, 0) + 1
                 if len(seen) <= 8 and seen[key] == 1:
-                    r2, _ = c.run_worker(fam, [(sc, d[sc])], parallel=1, env=env)
-                    if (r2.get(sc) or [{}])[0].get("agree", True):
-                        raise vf.FrameworkError("disagreement not reproduced")
+                    c.reproduce(fam, sc, lambda evs: any(not e.get("agree", True) for e in evs), env=env)
                 c.report(key, "; ".join(ev.get("bad") or []), dict({"case": case, "results": ev.get("results")}, **c.rp(fam, d[sc])))
         for sc, dd in deaths.items():
             c.report("death:%s:%s" % (fam, dd["kind"]), "process died verifying an image signature", {"case": json.loads(d[sc]), "death": dd})
